@@ -29,5 +29,6 @@ def check(tree, rep, tier='quick', seed=0):
     l1_access(tree, rep)
     rep.floor('core functions modelled', len(core.funcs), 120)
     R.k24_tracker_shape(core, rep, parts=('a', 'b'))
+    R.k24e_waiters_only_tracker_mutates(core, rep)
     R.k20_ctrl_c(core, rep)
     rep.floor('core rule obligations', sum(v[0] for k, v in rep.rules.items() if k.startswith('K')), 60)
